@@ -5,7 +5,7 @@ import ast
 import math
 import z3
 
-from .values import (Sym, SBool, SInt, SReal, SFP, SStr, SBytes, SHex, SOpaque, Unsupported,
+from .values import (Sym, SBool, SInt, SReal, SFP, SStr, SBytes, SHex, SOpaque, Unsupported, SNorm, norm_eq_regex,
                      contains_sym, float_to_real, fp_const, FP64, RNE, pytype_of)
 from .explore import SymRaise
 
@@ -117,6 +117,9 @@ def truth_term(ctx, v):
         return z3.Not(z3.fpIsZero(v.term))
     if isinstance(v, SStr):
         return z3.Length(v.term) > 0
+    if isinstance(v, SNorm):
+        e = norm_eq_regex(v, "")
+        return z3.Not(z3.InRe(v.term, e))
     if isinstance(v, (SHex,)):
         return v.nbits > 0
     if isinstance(v, Sym):
@@ -277,6 +280,14 @@ def eq_term(ctx, a, b):
         return bool(r)
     if is_numeric(a) and is_numeric(b):
         return num_compare(ctx, "Eq", a, b)
+    if isinstance(a, SNorm) or isinstance(b, SNorm):
+        n, c = (a, b) if isinstance(a, SNorm) else (b, a)
+        if isinstance(c, str):
+            rex = norm_eq_regex(n, c)
+            return False if rex is None else z3.InRe(n.term, rex)
+        if isinstance(c, (SNorm, SStr)):
+            raise Unsupported("== between two symbolic normalised strings")
+        return False
     if is_strlike(a) and is_strlike(b):
         return str_term(a) == str_term(b)
     if isinstance(a, SOpaque) and isinstance(b, SOpaque):
@@ -404,6 +415,25 @@ def contains_term(ctx, item, container):
         if not parts:
             return False
         return z3.Or(*parts)
+    if isinstance(item, SNorm) and isinstance(container, str):
+        # normalised symbolic string is a substring of a constant: one of its (few) substrings
+        if len(container) > 24:
+            raise Unsupported("substring test of a symbolic string against a long constant")
+        subs = {container[i:j] for i in range(len(container) + 1) for j in range(i, len(container) + 1)}
+        parts = []
+        for sub in sorted(subs):
+            rex = norm_eq_regex(item, sub)
+            if rex is not None:
+                parts.append(z3.InRe(item.term, rex))
+        return z3.Or(*parts) if parts else False
+    if isinstance(container, SNorm):
+        if not isinstance(item, str):
+            raise Unsupported("`in` with a symbolic needle and a normalised symbolic haystack")
+        rex = norm_eq_regex(SNorm(container.term, container.lower, False), item)
+        if rex is None:
+            return False
+        anyc = z3.Star(z3.AllChar(z3.ReSort(z3.StringSort())))
+        return z3.InRe(container.term, z3.Concat(anyc, rex, anyc))
     if is_strlike(container):
         if not is_strlike(item):
             raise SymRaise(TypeError("'in <string>' requires string as left operand, not %s"
